@@ -80,6 +80,10 @@ def build_items(dmax, cmax, rnd):
                     if variant == 'unrolled':
                         circ = circ.apply_modifiers()
                     items.append(('%s-d%d-c%d-%s' % (ctor, d, cycles, variant), circ))
+    # one long unrolled circuit (a repeated block inside the unrolled sequence: >= 5 cycles, two ancillas)
+    desc5 = RepetitionCodeDescription.from_chain(length=5)
+    init5 = InitialStateContainer.from_ordered_list([InitialStateEnum.ONE, InitialStateEnum.ZERO, InitialStateEnum.ONE])
+    items.append(('main-d3-c5-unrolled-long', construct_repetition_code_circuit(qec_cycles=5, description=desc5, initial_state=init5).apply_modifiers()))
     for typ in (CalibrateType.QUBIT, CalibrateType.QUTRIT):
         for n in (1, 3):
             ids = [QubitIDObj('D%d' % (i + 1)) for i in range(n)]
